@@ -17,13 +17,9 @@ ACTIVE_MODES = (1, 2)                          # NodeOnly, ListenAndNode
 # oracle below states the property (a re-enabled device sends again) and reports that behaviour under the key `reenable-stays-off`;
 # the generator produces the pattern only when this switch is on.
 GEN_REENABLE_SAME = True
-# confirmed defects that are not repaired (yet): key -> line printed as KNOWN-FINDING.  Reported to the lead (patch proposal
-# /tmp/fix_C12_1.diff); moves to known_findings.json or disappears with the fix.  Coq: Spec/HbSpec.v hb_reenable_refuted_stmt.
-PENDING_KNOWN = {
-    'reenable-stays-off': 'C12 reenable-stays-off: after SetHeartbeatIntervalAndOffset(0, x) (disable) a later call with exactly the stored interval and offset is '
-                          '"no change": SetPeriodAndOffset is not called, NextTime stays disabled and the device never sends a heartbeat again although a non-zero '
-                          'interval is configured (witness: NODE mode=1 ndev=1 src=22 q=40 t0=5000 hb=1 | H 0 0 ; T 80000 ; P ; H 60000 10000 ; T 70000 ; P ; T 70000 ; P)',
-}
+# confirmed defects that are not repaired (yet): key -> line printed as KNOWN-FINDING.  (`reenable-stays-off` was repaired in /repo 9a9419c:
+# the pattern is generated and must pass; Coq: Spec/HbSpec.v hb_reenable_stmt.)
+PENDING_KNOWN = {}
 
 
 # ---------------------------------------------------------------------------------------------------------------------------------
